@@ -74,6 +74,11 @@ def run_case(case):
         # put a continuous axis in front of a discrete one
         axis_names = (["state_index"] if sp else []) + [cs[0][0]] + [k for k, _ in dd] + [c[0] for c in cs[1:]]
     idx_infos = [IndexerInfo(axis_names=[k for k, _ in sp], name="state_indexer", out_name="state_index")] if sp else []
+    if len(interp_info) > 1 and r.random() < 0.5:
+        # the interpolation info is a mapping name -> grid: its insertion order need not be the order of the axes
+        ks_ = list(interp_info)
+        r.shuffle(ks_)
+        interp_info = {k_: interp_info[k_] for k_ in ks_}
     si = SpaceInfo(axis_names=axis_names, lookup_info=lookup, interpolation_info=interp_info, indexer_infos=idx_infos)
     sig = f"sp={[n for _, n in sp]} dd={[n for _, n in dd]} cs={[(c[1], c[4]) for c in cs]} bad={bool(case.get('bad_axes'))}"
     out = {"sig": sig, "nontrivial": True, "evals": 0, "violations": [], "corr_breaks": [], "hist": {f"n_cont={n_c}": 1, f"n_restricted={n_sp}": 1, f"n_unrestricted={n_dd}": 1, f"log={not exact}": 1}}
